@@ -67,7 +67,8 @@ def dispatch (op : String) (args : List SExp) : String :=
      | some (h, gs), some bytes =>
         let mine := encodeMsg h gs
         let modelPart := if mine == bytes then "match" else s!"(model-bytes {bytesToHex mine})"
-        let canon : List Group := gs.map Group.canon
+        -- the content the bytes must carry: the message, with its first operation group in front (RFC 8011)
+        let canon : List Group := Spec.opFirst (gs.map Group.canon)
         let specPart :=
           match Spec.unser bytes with
           | none => "(spec-fail not-rfc8010)"
@@ -124,6 +125,11 @@ def dispatch (op : String) (args : List SExp) : String :=
         | none => "(bad-arg)")
      | none => "(bad-arg)")
   | "parse", [.atom h] =>
+    (match hexToBytes h with
+     | some b => showParsed bytesToHex (parseFlat b)
+     | none => "(bad-arg)")
+  | "tagpos", [.atom _, .atom h] =>
+    -- `tagpos OFFSET HEX`: like `parse`; the harness knows that the byte at OFFSET stands where a tag is expected
     (match hexToBytes h with
      | some b => showParsed bytesToHex (parseFlat b)
      | none => "(bad-arg)")
